@@ -109,6 +109,28 @@ end setters
 @[simp] theorem setLast_do (s : Seg) (v : Option Nat) : (s.setLast v).defaultOriginal = s.defaultOriginal := rfl
 @[simp] theorem addGlyphs_do (s : Seg) (d : Int) : (s.addGlyphs d).defaultOriginal = s.defaultOriginal := rfl
 
+
+/-! projections through the context updates -/
+section ctx
+variable (c : Ctx) (v : Option Nat) (b : Bool) (m : Int) (st : Vm.Status) (k : Nat) (sg : Seg)
+@[simp] theorem withSeg_seg : (c.withSeg sg).seg = sg := rfl
+@[simp] theorem withSeg_is : (c.withSeg sg).is = c.is := rfl
+@[simp] theorem setIs_seg : (c.setIs v).seg = c.seg := rfl
+@[simp] theorem setIs_is : (c.setIs v).is = v := rfl
+@[simp] theorem setMap_seg : (c.setMap m).seg = c.seg := rfl
+@[simp] theorem setMap_is : (c.setMap m).is = c.is := rfl
+@[simp] theorem setStatus_seg : (c.setStatus st).seg = c.seg := rfl
+@[simp] theorem setStatus_is : (c.setStatus st).is = c.is := rfl
+@[simp] theorem setMaxSize_seg : (c.setMaxSize m).seg = c.seg := rfl
+@[simp] theorem setMaxSize_is : (c.setMaxSize m).is = c.is := rfl
+@[simp] theorem setCell_seg : (c.setCell k v).seg = c.seg := rfl
+@[simp] theorem setCell_is : (c.setCell k v).is = c.is := rfl
+@[simp] theorem markHighpassed_seg : (c.markHighpassed b).seg = c.seg := by unfold Ctx.markHighpassed; split <;> rfl
+@[simp] theorem markHighpassed_is : (c.markHighpassed b).is = c.is := by unfold Ctx.markHighpassed; split <;> rfl
+@[simp] theorem moveHighwater_seg : (c.moveHighwater v).seg = c.seg := by unfold Ctx.moveHighwater; split <;> rfl
+@[simp] theorem moveHighwater_is : (c.moveHighwater v).is = c.is := by unfold Ctx.moveHighwater; split <;> rfl
+end ctx
+
 theorem get_oob (s : Seg) (i : Nat) (h : s.slots.size ≤ i) : s.get i = {} := by
   unfold Seg.get; simp [Array.getD_eq_getD_getElem?, h]
 
